@@ -50,11 +50,19 @@ func (dec *Decoder) checkUTF8String(buf []byte, off, utf16Length int) (int, int,
 func (dec *Decoder) fastReadStringAsBytes(utf16Length int) (data []byte) {
 	buf := dec.buf[dec.head:dec.tail]
 	off := 0
-	for ; utf16Length > 0; utf16Length-- {
+	for ; utf16Length > 0 && off < len(buf); utf16Length-- {
 		var ok bool
 		if off, utf16Length, ok = dec.checkUTF8String(buf, off, utf16Length); !ok {
 			return
 		}
+	}
+	if utf16Length != 0 || off > len(buf) {
+		// the declared length ends inside a surrogate pair, or the last
+		// character is cut by the end of the input
+		if dec.Error == nil {
+			dec.Error = ErrInvalidUTF8
+		}
+		return
 	}
 	dec.head += off
 	return buf[:off]
